@@ -317,6 +317,13 @@ def run(prop, tier, seed, replay=None, finish=True):
         V.violation("audit_forbidden", {"obligation": "no sorry/admit/native_decide/... in the Lean library", "hits": forb[:50]}, no_failing_input=True)
     if ax_bad:
         V.violation("audit_axioms", {"obligation": "axioms ⊆ {propext, Classical.choice, Quot.sound}", "theorems": ax_bad}, no_failing_input=True)
+    if ok and ok_p and tier == "thorough":
+        rechecked = common.leancheck(chunks + [props_mod], jobs=6)
+        bad = {m: o for m, (k, o) in rechecked.items() if not k}
+        if bad:
+            V.violation("audit_leanchecker", {"obligation": "leanchecker (independent kernel re-check of the compiled .olean files) accepts every module",
+                                               "modules": bad}, no_failing_input=True)
+        V.note("leanchecker re-checked %d modules" % len(rechecked))
 
     # 4. baseline: overloads that used to be translated and specified must still be
     lost = []
